@@ -5,6 +5,8 @@ import (
 	"encoding/json"
 	"fmt"
 	"os"
+	"os/exec"
+	"strings"
 	"testing"
 	"time"
 
@@ -504,4 +506,95 @@ func TestC19Now(t *testing.T) {
 	}
 	run.Sample("now", "now(), toDay()")
 	run.Sample("now-history", "4 x [now(), millSecond(now())] on one runner")
+}
+
+// localCase: the process's local zone is set by assigning time.Local after start-up.
+type localCase struct {
+	Zone string `json:"zone"`
+}
+
+// c19LocalChild runs in a child process: time.Local = zone, then the builtins that speak of "local".
+func c19LocalChild(zone string) {
+	loc, err := time.LoadLocation(zone)
+	if err != nil {
+		fmt.Println("CHILD-SKIP", err)
+		return
+	}
+	time.Local = loc
+	bad := false
+	for _, c := range [][3]int{{2024, 7, 15}, {2024, 14, 31}, {1999, 1, 1}, {2030, 12, 0}} {
+		text := fmt.Sprintf("date(%d, %d, %d)", c[0], c[1], c[2])
+		out := obs.EvalText(text, nil)
+		want := time.Date(c[0], time.Month(c[1]), c[2], 0, 0, 0, 0, loc)
+		got, ok := out.Val.(time.Time)
+		if out.Err != nil || !ok || !got.Equal(want) || got.Location() != time.Local {
+			fmt.Printf("MISMATCH %s with time.Local = %s gives %v (%v), want %v in the local zone\n", text, zone, out.Val, out.Err, want)
+			bad = true
+		}
+	}
+	before := time.Now()
+	out := obs.EvalText("toDay()", nil)
+	after := time.Now()
+	got, ok := out.Val.(time.Time)
+	b, a := before.In(loc), after.In(loc)
+	w1 := time.Date(b.Year(), b.Month(), b.Day(), 0, 0, 0, 0, loc)
+	w2 := time.Date(a.Year(), a.Month(), a.Day(), 0, 0, 0, 0, loc)
+	if out.Err != nil || !ok || !(got.Equal(w1) || got.Equal(w2)) || got.Location() != time.Local {
+		fmt.Printf("MISMATCH toDay() with time.Local = %s gives %v (%v), want %v in the local zone\n", zone, out.Val, out.Err, w2)
+		bad = true
+	}
+	if !bad {
+		fmt.Println("CHILD-OK")
+	}
+}
+
+func checkLocalReassigned(c localCase) string {
+	cmd := exec.Command(os.Args[0], "-test.run", "^TestC19LocalReassigned$", "-test.count=1")
+	cmd.Env = append(os.Environ(), "VERIF_CHILD=c19local:"+c.Zone, "VERIF_OUT=")
+	outb, _ := cmd.CombinedOutput()
+	s := string(outb)
+	if i := strings.Index(s, "MISMATCH "); i >= 0 {
+		line := s[i:]
+		if j := strings.Index(line, "\n"); j >= 0 {
+			line = line[:j]
+		}
+		return strings.TrimPrefix(line, "MISMATCH ")
+	}
+	return ""
+}
+
+func init() {
+	h.RegisterReplay("c19-local", func(raw json.RawMessage) string {
+		c, err := h.Decode[localCase](raw)
+		if err != nil {
+			return "bad replay: " + err.Error()
+		}
+		return checkLocalReassigned(c)
+	})
+}
+
+// TestC19LocalReassigned: "local" is the zone time.Local names when the builtin runs - a program that
+// sets time.Local in main (a common way to pin a service to UTC or to its users' zone) gets that zone.
+func TestC19LocalReassigned(t *testing.T) {
+	if v := os.Getenv("VERIF_CHILD"); strings.HasPrefix(v, "c19local:") {
+		c19LocalChild(strings.TrimPrefix(v, "c19local:"))
+		return
+	}
+	if os.Getenv("VERIF_CHILD") != "" {
+		return
+	}
+	if i, _ := h.Shard(); i != 0 {
+		return
+	}
+	run := h.Begin("C19", "local-reassigned", "enumerated: for 6 zones a child process assigns time.Local after start-up and evaluates date(y,m,d) for four triples and toDay(); oracle: time.Date(y,m,d,0,0,0,0,time.Local) / the local midnight of the bracket, and the result's Location is time.Local; every case non-trivial")
+	defer run.End(t)
+	for _, z := range []string{"Asia/Tokyo", "America/New_York", "UTC", "Asia/Kolkata", "Australia/Lord_Howe", "Pacific/Kiritimati"} {
+		c := localCase{Zone: z}
+		run.Count(true, "zone")
+		run.Sample("zone", "time.Local = "+z+"; date(2024, 14, 31)")
+		if msg := checkLocalReassigned(c); msg != "" {
+			run.Fail("c19-local", c, msg)
+		}
+	}
+	run.Exhaustive()
 }
